@@ -321,3 +321,41 @@ def run_abandon_lockstep(res, pid, seed, tier, envs=(None,)):
     res.cov["evaluations"] += stats["lockstep_atomic_steps"]
     res.add_samples(["s_conc exit %d %d %d alog | replay abandon-lockstep" % (j[0], j[1], j[2]) for j in jobs[:2]])
     return stats
+
+
+def run_exit_orders(res, pid, seed, tier, kinds):
+    """harness/t_exitorder.c: every ordering of thread terminations (real pthread exit) and of frees / adoptions of what the threads
+    left behind, for 3 workers (720 orders) in the four configurations arena|OS segments x reclaim-on-free off|on; thorough adds a
+    PRNG sample of 400 orders with 4 workers.  kinds: the oracle kinds the calling property reports."""
+    exe = os.path.join(vlib.BUILD, "t_exitorder_%s" % pid)
+    ok, txt, cmd = vlib.cc(os.path.join(vlib.HARN, "t_exitorder.c"), exe)
+    if not ok:
+        res.violation("harness-build", "harness/t_exitorder.c no longer compiles against the current tree: " + txt[-1200:]); return None
+    stats = collections.Counter(); seen = set()
+    confs = [(na, rof, 3) for na in (0, 1) for rof in (0, 1)] + ([(na, rof, 4) for na in (0, 1) for rof in (0, 1)] if tier == "thorough" else [])
+    def one(c):
+        rc, out, err = vlib.run_split([exe, str(c[0]), str(c[1]), str(c[2]), str(seed)], timeout=600, env=vlib.clean_env())
+        return c, rc, out, err
+    with concurrent.futures.ThreadPoolExecutor(max_workers=4) as ex:
+        for c, rc, out, err in ex.map(one, confs):
+            lines = out.splitlines()
+            cfg = "no_arena=%d reclaim_on_free=%d workers=%d" % c
+            if rc != 0 or not lines or lines[-1] != "END":
+                last = [l for l in lines if l.startswith("T fail")][-1:] or ["(no failure record)"]
+                res.violation("impl:order-crash", "t_exitorder (%s) exited with %d before finishing: %s %s" % (cfg, rc, last[0][:300], err[-300:]),
+                              witness="t_exitorder %d %d %d %d" % (c[0], c[1], c[2], seed))
+                continue
+            for l in lines:
+                if l.startswith("T sum"):
+                    m = re.search(r'orders=(\d+)', l); stats["orders"] += int(m.group(1)) if m else 0
+                elif l.startswith("T fail "):
+                    kind = l.split()[2]; stats["fail:" + kind] += 1
+                    if kind in kinds and kind not in seen:
+                        seen.add(kind)
+                        order = re.search(r'order=(\S+)', l).group(1)
+                        res.violation("impl:order-" + kind, "thread exit / adoption order %s (%s): %s" % (order, cfg, l.split(" : ", 1)[-1][:400]),
+                                      witness="t_exitorder %d %d %d %d  (events: E<i> = worker i terminates, F<i> = the main thread frees worker i's blocks) order %s"
+                                              % (c[0], c[1], c[2], seed, order))
+    res.cov["evaluations"] += stats["orders"]; res.cov["traces_validated_against_impl"] += stats["orders"]; res.cov["distinct_nontrivial"] += stats["orders"]
+    res.cov.setdefault("input_distribution", {})["exit_orders"] = dict(stats)
+    return stats
